@@ -21,7 +21,11 @@ extern "C" {
     fn setrlimit(resource: i32, rlim: *const [u64; 2]) -> i32;
     fn alarm(seconds: u32) -> u32;
     fn _exit(code: i32) -> !;
+    fn clock() -> i64;
 }
+
+/// CPU seconds used by this process so far (clock(3), CLOCKS_PER_SEC = 1e6 on Linux)
+pub fn cpu_seconds() -> f64 { unsafe { clock() as f64 / 1e6 } }
 
 const RLIMIT_CPU: i32 = 0;
 const RLIMIT_CORE: i32 = 4;
@@ -101,7 +105,7 @@ pub fn run_forked(dir: &Path, args: &[String]) -> RunResult {
 /// Run `f` in a forked child with the same limits (cwd `dir`, stderr captured, 2 GiB, 10 s CPU): for library
 /// entry points whose failure mode may be an abort (allocation failure, stack overflow) rather than a panic.
 /// The child's exit code is `f()`'s value; a panic prints the usual "panicked at" message and exits 101.
-pub fn run_forked_with(dir: &Path, f: impl FnOnce() -> i32) -> RunResult {
+pub fn run_forked_with(dir: &Path, cpu_s: u32, f: impl FnOnce() -> i32) -> RunResult {
     use std::io::Write;
     let _ = std::io::stdout().flush();
     let errp = dir.join("stderr.txt");
@@ -120,8 +124,8 @@ pub fn run_forked_with(dir: &Path, f: impl FnOnce() -> i32) -> RunResult {
             if nfd >= 0 { dup2(nfd, 1); close(nfd); }
             setrlimit(RLIMIT_AS, &[AS_LIMIT, AS_LIMIT]);
             setrlimit(RLIMIT_CORE, &[0, 0]);
-            setrlimit(RLIMIT_CPU, &[TIMEOUT_S as u64, TIMEOUT_S as u64 + 2]);
-            alarm(WALL_TIMEOUT_S);
+            setrlimit(RLIMIT_CPU, &[cpu_s as u64, cpu_s as u64 + 2]);
+            alarm(WALL_TIMEOUT_S.max(cpu_s * 6));
             std::panic::set_hook(Box::new(move |info| {
                 let site = info.location().map(|l| format!("{}:{}:{}", l.file(), l.line(), l.column())).unwrap_or_default();
                 let msg = if let Some(s) = info.payload().downcast_ref::<&str>() { s.to_string() }
